@@ -134,6 +134,131 @@ func genClusterText(r *Rng) string {
 	return strings.Join(lines, "\n") + "\n"
 }
 
+// cleanTopo: the reference reading of a nodes text in the plain form redis prints for a healthy cluster (flags
+// master / myself,master / slave, link connected, address ip:port@cport, slot tokens a-b / n / [migrating markers],
+// every replica's master listed, every node healthy by clusterInfoOf, at least three nodes). ok = false for anything
+// else: the oracle then says nothing.
+type cleanMaster struct {
+	addr   string
+	ranges [][2]int
+	slaves []string
+}
+
+func cleanTopo(text string) (masters []cleanMaster, ok bool) {
+	byID := map[string]int{}
+	seenAddr := map[string]bool{}
+	type sl struct{ addr, master string }
+	var slaves []sl
+	n := 0
+	for _, line := range strings.Split(strings.TrimSuffix(text, "\n"), "\n") {
+		f := strings.Split(line, " ")
+		if len(f) < 8 || len(f[0]) != 40 {
+			return nil, false
+		}
+		at := strings.Index(f[1], "@")
+		if at < 0 {
+			return nil, false
+		}
+		addr := f[1][:at]
+		host, port, found := strings.Cut(addr, ":")
+		if _, err := strconv.Atoi(port); !found || err != nil || len(strings.Split(host, ".")) != 4 || seenAddr[addr] {
+			return nil, false
+		}
+		seenAddr[addr] = true
+		if info, err := clusterInfoOf(addr); err != nil || info.Loading || info.MasterLinkStatus != "up" {
+			return nil, false
+		}
+		if f[7] != "connected" {
+			return nil, false
+		}
+		switch f[2] {
+		case "master", "myself,master":
+			if f[3] != "-" {
+				return nil, false
+			}
+			m := cleanMaster{addr: addr}
+			for _, tok := range f[8:] {
+				if strings.HasPrefix(tok, "[") {
+					continue
+				}
+				a, b, isRange := strings.Cut(tok, "-")
+				lo, err1 := strconv.Atoi(a)
+				hi := lo
+				var err2 error
+				if isRange {
+					hi, err2 = strconv.Atoi(b)
+				}
+				if err1 != nil || err2 != nil || lo < 0 || hi > 16383 || lo > hi {
+					return nil, false
+				}
+				m.ranges = append(m.ranges, [2]int{lo, hi})
+			}
+			if len(m.ranges) == 0 {
+				return nil, false
+			}
+			byID[f[0]] = len(masters)
+			masters = append(masters, m)
+		case "slave":
+			if len(f) != 8 {
+				return nil, false
+			}
+			slaves = append(slaves, sl{addr, f[3]})
+		default:
+			return nil, false
+		}
+		n++
+	}
+	for _, s := range slaves {
+		i, found := byID[s.master]
+		if !found {
+			return nil, false
+		}
+		masters[i].slaves = append(masters[i].slaves, s.addr)
+	}
+	// disjoint ranges
+	var owned [16384]bool
+	for _, m := range masters {
+		for _, r := range m.ranges {
+			for s := r[0]; s <= r[1]; s++ {
+				if owned[s] {
+					return nil, false
+				}
+				owned[s] = true
+			}
+		}
+	}
+	return masters, n >= 3
+}
+
+// checkTable: after a tick that rebuilt the table from a clean text, every slot is owned by the master that lists it,
+// with exactly that master's replicas, and slots nobody lists are unowned
+func checkTable(env *SimEnv, masters []cleanMaster) []string {
+	var fails []string
+	var want [16384]int
+	for i := range want {
+		want[i] = -1
+	}
+	for i, m := range masters {
+		for _, r := range m.ranges {
+			for s := r[0]; s <= r[1]; s++ {
+				want[s] = i
+			}
+		}
+	}
+	for s := 0; s < 16384 && len(fails) < 3; s++ {
+		m, sl, ok := env.env.SlotOwner(int32(s))
+		switch {
+		case want[s] < 0 && ok:
+			fails = append(fails, fmt.Sprintf("C14: slot %d is claimed by no node of the latest valid CLUSTER NODES reply but the table routes it to %s", s, m))
+		case want[s] >= 0 && !ok:
+			fails = append(fails, fmt.Sprintf("C14: slot %d is claimed by the healthy master %s in the latest valid CLUSTER NODES reply but the table has no owner for it", s, masters[want[s]].addr))
+		case want[s] >= 0 && (m != masters[want[s]].addr || strings.Join(sl, ",") != strings.Join(masters[want[s]].slaves, ",")):
+			fails = append(fails, fmt.Sprintf("C14: slot %d: the latest valid CLUSTER NODES reply says master %s replicas %v, the table says master %s replicas %v", s, masters[want[s]].addr, masters[want[s]].slaves, m, sl))
+		}
+	}
+	return fails
+}
+
 func wrapBulk(text string) []byte {
 	return []byte("$" + strconv.Itoa(len(text)) + "\r\n" + text + "\r\n")
 }
@@ -221,6 +346,8 @@ func (clusterView) Exec(line string) (out string, oracle string, tags []string) 
 	var fails []string
 	tags = []string{"dom:C14"}
 	prev := ""
+	var lastClean []cleanMaster // reference reading of the latest usable probe text, nil when it is not in the plain form
+	haveClean := false
 	for _, ev := range strings.Split(strings.TrimPrefix(line, "cluster "), ";") {
 		f := strings.Fields(ev)
 		if len(f) == 0 {
@@ -276,6 +403,15 @@ func (clusterView) Exec(line string) (out string, oracle string, tags []string) 
 				if st.Changed {
 					tags = append(tags, "changed")
 				}
+				// the text between the bulk header and the trailing CRLF
+				if lf := strings.Index(string(msg), "\n"); lf > 0 && len(msg) >= lf+3 {
+					lastClean, haveClean = cleanTopo(string(msg[lf+1 : len(msg)-2]))
+					if haveClean {
+						tags = append(tags, "probe:clean-text")
+					}
+				} else {
+					haveClean = false
+				}
 			}
 			prev = o
 		case "K":
@@ -324,6 +460,10 @@ func (clusterView) Exec(line string) (out string, oracle string, tags []string) 
 			runs = append(runs, fmt.Sprintf("%sx%d", cur, cnt))
 			outs = append(outs, fmt.Sprintf("tick pools=%s table=%s", strings.Join(pools, ","), strings.Join(runs, ",")))
 			tags = append(tags, "tick:rebuilt")
+			if haveClean && alive {
+				tags = append(tags, "table-checked")
+				fails = append(fails, checkTable(env, lastClean)...)
+			}
 		}
 	}
 	// Let the refresh goroutine settle back into its receive on THIS engine's channel before the
